@@ -42,7 +42,8 @@ const (
 	FamSmall = iota
 	FamBlocks
 	FamWide
-	FamMid // 1..28 documents focused on one posting list (multi-chunk under fixed sizes), plus unique terms
+	FamManyFields // 130..300 field names: two-byte field ids
+	FamMid        // 1..28 documents focused on one posting list (multi-chunk under fixed sizes), plus unique terms
 )
 
 // how a segment is held
@@ -133,6 +134,9 @@ func GenLeaf(t *rapid.T, ctx *Ctx, sc *Scenario, cfg CaseCfg, label string) (*Se
 	case FamWide:
 		p := GenWide(t)
 		b, desc = p.Batch(sc), p.String()
+	case FamManyFields:
+		b = GenBatchManyFields(t, sc)
+		desc = b[1:].String() + fmt.Sprintf(" (+doc0 defining %d fields)", len(b[0].Fields))
 	case FamMid:
 		b = genPostingBatch(t, sc)
 		desc = "posting-batch " + b.String()
